@@ -266,6 +266,8 @@ def run_cases(prop, cfg, tier, seed, workdir, tag):
             if toks[0] in ("buildv",) or not ok_kind.startswith("ok"):
                 pass
             kind = l.split(" => ")[1].split(" ")[0]
+            if len(kind) > 12 or not kind.replace("-", "").replace(":", "").isalpha():
+                kind = "value"          # a computed value (hex string, number, digest), not an outcome class
             outcome_kinds[kind] = outcome_kinds.get(kind, 0) + 1
         if sv != "ok":
             fails.append((i, l, sv))
